@@ -80,18 +80,9 @@ def derive_model_fields(program, ctx, rid, prop=P):
     return fields
 
 
-def _ids_are_hex_ok(program, ctx, rid, prop) -> bool:
-    fn = program.func("nostr_relay.storage.base:ids_are_hex")
-    cfg = cfg_of(fn)
-    # per-item loop
-    loop = next((n for n in walk_no_nested(fn) if isinstance(n, ast.For)), None)
-    if loop is None or not isinstance(loop.target, ast.Name):
-        ctx.bad(finding_func(prop, rid, fn, "ids_are_hex no longer checks each id", text="def ids_are_hex(...)"))
-        return False
-    item = loop.target.id
-
+def _hex_pred(item):
     def pred(expr, pol):
-        # not any(ch not in "<hex>" for ch in item)   /   all(ch in "<hex>" …)
+        # not any(ch not in "<hex>" for ch in item)   /   all(ch in "<hex>" for ch in item)
         if isinstance(expr, ast.Call) and call_name(expr) in ("any", "all") and expr.args and isinstance(expr.args[0], ast.GeneratorExp):
             g = expr.args[0]
             src = g.generators[0].iter
@@ -109,34 +100,73 @@ def _ids_are_hex_ok(program, ctx, rid, prop) -> bool:
         if isinstance(expr, ast.Call) and call_name(expr).endswith("fullmatch") and expr.args and isinstance(expr.args[0], ast.Constant):
             return pol and bool(re.fullmatch(r"\[0-9a-f(A-F)?\]([+*]|\{\d+(,\d*)?\})", str(expr.args[0].value)))
         return False
+    return pred
 
-    passes = test_edges(cfg, pred)
-    appends = cfg.stmt_nodes(lambda s: any(isinstance(c.func, ast.Attribute) and c.func.attr == "append" for c in own_calls(s)), kinds=("stmt",))
-    if not appends:
-        ctx.bad(finding_func(prop, rid, fn, "ids_are_hex does not collect checked ids", text="def ids_are_hex(...)"))
+
+def _ids_are_hex_ok(program, ctx, rid, prop) -> bool:
+    """the validator returns only items whose every character passed a hex-only alphabet test.
+    Two shapes are read: a loop that appends checked items, or a comprehension mapping a per-item function over the ids."""
+    fn = program.func("nostr_relay.storage.base:ids_are_hex")
+    # shape B: return [g(x) for x in ids]
+    rets = [r for r in walk_no_nested(fn) if isinstance(r, ast.Return)]
+    for r in rets:
+        v = r.value
+        if isinstance(v, (ast.ListComp,)) and len(v.generators) == 1 and not v.generators[0].ifs and isinstance(v.elt, ast.Call) and isinstance(v.elt.func, ast.Name):
+            g = program.func_opt(f"{fn._module.name}:{v.elt.func.id}")
+            tgt = v.generators[0].target
+            if g is not None and isinstance(tgt, ast.Name) and len(v.elt.args) == 1 and dotted(v.elt.args[0]) == tgt.id and dotted(v.generators[0].iter) == fn.args.args[0].arg:
+                return _per_item_ok(program, ctx, rid, prop, g, g.args.args[0].arg, mode="return")
+    loop = next((n for n in walk_no_nested(fn) if isinstance(n, ast.For)), None)
+    if loop is None or not isinstance(loop.target, ast.Name):
+        ctx.bad(finding_func(prop, rid, fn, "ids_are_hex no longer checks each id", text="def ids_are_hex(...)"))
         return False
+    okv = _per_item_ok(program, ctx, rid, prop, fn, loop.target.id, mode="append")
+    lists = {c.func.value.id for c in ast.walk(fn) if isinstance(c, ast.Call) and isinstance(c.func, ast.Attribute) and c.func.attr == "append" and isinstance(c.func.value, ast.Name)}
+    if not rets or any(not (isinstance(r.value, ast.Name) and r.value.id in lists) for r in rets):
+        okv = False
+        ctx.bad(finding_func(prop, rid, fn, "ids_are_hex does not return the list of checked ids", text="def ids_are_hex(...) :: return"))
+    return okv
+
+
+def _per_item_ok(program, ctx, rid, prop, fn, item, mode) -> bool:
+    cfg = cfg_of(fn)
+    # the item may be re-bound only by case folding (the alias keeps the mark)
+    items = {item}
+    for s in walk_no_nested(fn):
+        if isinstance(s, ast.Assign) and isinstance(s.targets[0], ast.Name) and isinstance(s.value, ast.Call) and isinstance(s.value.func, ast.Attribute) \
+                and s.value.func.attr in ("lower", "strip") and dotted(s.value.func.value) in items:
+            items.add(s.targets[0].id)
     good = True
-    for a in appends:
+    for it in items:
+        for s in stores_of(fn, it):
+            if isinstance(s, ast.Assign) and not (isinstance(s.value, ast.Call) and isinstance(s.value.func, ast.Attribute) and s.value.func.attr in ("lower", "strip") and dotted(s.value.func.value) in items):
+                good = False
+                ctx.bad(finding_at(prop, rid, s, "the id is transformed after/before the hex check by something other than lower()/strip()"))
+    passes = {}
+    for it in items:
+        for n, e in test_edges(cfg, _hex_pred(it)).items():
+            passes.setdefault(n, set()).update(e)
+    checked = {it for it in items if test_edges(cfg, _hex_pred(it))}
+    if mode == "append":
+        accept = cfg.stmt_nodes(lambda s: any(isinstance(c.func, ast.Attribute) and c.func.attr == "append" for c in own_calls(s)), kinds=("stmt",))
+        values = {a: next(c for c in own_calls(cfg.ast_of(a)) if isinstance(c.func, ast.Attribute) and c.func.attr == "append").args[0] for a in accept}
+    else:
+        accept = cfg.stmt_nodes(lambda s: isinstance(s, ast.Return) and s.value is not None, kinds=("stmt",))
+        values = {a: cfg.ast_of(a).value for a in accept}
+    if not accept:
+        ctx.bad(finding_func(prop, rid, fn, "the hex validator accepts nothing / does not collect checked ids", text=f"def {fn.name}(...)"))
+        return False
+    for a in accept:
         st = cfg.ast_of(a)
-        c = next(c for c in own_calls(st) if isinstance(c.func, ast.Attribute) and c.func.attr == "append")
-        if not (c.args and isinstance(c.args[0], ast.Name) and c.args[0].id == item):
+        v = values[a]
+        if not (isinstance(v, ast.Name) and v.id in checked):
             good = False
-            ctx.bad(finding_at(prop, rid, st, "ids_are_hex collects something other than the checked id"))
+            ctx.bad(finding_at(prop, rid, st, "the hex validator hands on something other than the id that was checked (e.g. the client's original spelling)"))
         elif must_pass(cfg, passes, [a]):
             good = False
-            ctx.bad(finding_at(prop, rid, st, "an id is accepted by ids_are_hex without every character having been tested against a hex-only alphabet"))
-    # the item may be re-bound only by case folding
-    for s in stores_of(fn, item):
-        if isinstance(s, ast.Assign) and not (isinstance(s.value, ast.Call) and isinstance(s.value.func, ast.Attribute) and s.value.func.attr in ("lower", "strip") and dotted(s.value.func.value) == item):
-            good = False
-            ctx.bad(finding_at(prop, rid, s, "the id is transformed after/before the hex check by something other than lower()/strip()"))
-    rets = [r for r in walk_no_nested(fn) if isinstance(r, ast.Return)]
-    lists = {c.func.value.id for a in appends for c in own_calls(cfg.ast_of(a)) if isinstance(c.func, ast.Attribute) and isinstance(c.func.value, ast.Name)}
-    if not rets or any(not (isinstance(r.value, ast.Name) and r.value.id in lists) for r in rets):
-        good = False
-        ctx.bad(finding_func(prop, rid, fn, "ids_are_hex does not return the list of checked ids", text="def ids_are_hex(...) :: return"))
+            ctx.bad(finding_at(prop, rid, st, "an id is accepted without every character having been tested against a hex-only alphabet"))
     if good:
-        ctx.ok(rid, fn, "ids_are_hex: every returned id passed the hex-alphabet test")
+        ctx.ok(rid, fn, f"{fn.name}: every accepted id passed the hex-alphabet test")
     return good
 
 
@@ -289,26 +319,49 @@ def rule_validate(program, ctx, prop=P, rid="C01.validate"):
     for c in walk_no_nested(sub):
         if isinstance(c, ast.Call) and isinstance(c.func, ast.Attribute) and c.func.attr in ("append", "extend", "insert") and isinstance(c.func.value, ast.Name):
             lists.setdefault(c.func.value.id, []).append(c)
+    def list_names(name, seen=()):
+        """names of the list objects `name` can denote (through `a = b` re-bindings)"""
+        if name in seen:
+            return set()
+        out = set()
+        if name in lists:
+            out.add(name)
+        for st in stores_of(sub, name):
+            if isinstance(st, ast.Assign) and isinstance(st.value, ast.Name):
+                out |= list_names(st.value.id, seen + (name,))
+        return out
+
+    def validated(v) -> bool:
+        if isinstance(v, ast.Call) and call_name(v).endswith("NostrQuery.model_validate"):
+            return True
+        if isinstance(v, ast.Name):
+            ds = stores_of(sub, v.id)
+            return bool(ds) and all(isinstance(d, ast.Assign) and validated(d.value) for d in ds)
+        return False
+
     for c in walk_no_nested(sub):
         if isinstance(c, ast.Call) and call_name(c).endswith("subscription_class"):
             arg = c.args[2] if len(c.args) > 2 else None
-            if not isinstance(arg, ast.Name) or arg.id not in lists:
+            names = list_names(arg.id) if isinstance(arg, ast.Name) else set()
+            if not names:
                 ctx.bad(finding_at(prop, rid, c, "the subscription is built from something other than the locally validated filter list"))
                 continue
-            for a in lists[arg.id]:
-                v = a.args[-1]
-                if isinstance(v, ast.Call) and call_name(v).endswith("NostrQuery.model_validate"):
-                    ctx.ok(rid, a, f"{arg.id}.append(NostrQuery.model_validate(raw))")
-                else:
-                    ctx.bad(finding_at(prop, rid, a, "an unvalidated filter object is appended to the list handed to the subscription"))
-            for st in stores_of(sub, arg.id):
-                if not (isinstance(st, ast.Assign) and isinstance(st.value, (ast.List,)) and not st.value.elts):
-                    ctx.bad(finding_at(prop, rid, st, f"`{arg.id}` is bound to something other than an empty list before validation"))
+            for nm in names:
+                for a in lists[nm]:
+                    v = a.args[-1]
+                    if a.func.attr == "append" and validated(v):
+                        ctx.ok(rid, a, f"{nm}.append(<NostrQuery.model_validate(raw)>)")
+                    else:
+                        ctx.bad(finding_at(prop, rid, a, "an unvalidated filter object is appended to the list handed to the subscription"))
+                for st in stores_of(sub, nm):
+                    if not (isinstance(st, ast.Assign) and ((isinstance(st.value, (ast.List,)) and not st.value.elts) or isinstance(st.value, ast.Name))):
+                        ctx.bad(finding_at(prop, rid, st, f"`{nm}` is bound to something other than an empty list before validation"))
     mv = program.func("nostr_relay.storage.base:NostrQuery.model_validate")
     cfg = cfg_of(mv)
     obj = mv.args.args[1].arg
     gates = {}
-    local_lists = {s.targets[0].id for s in walk_no_nested(mv) if isinstance(s, ast.Assign) and isinstance(s.value, ast.List) and not s.value.elts and isinstance(s.targets[0], ast.Name)}
+    local_lists = {s.targets[0].id for s in walk_no_nested(mv) if isinstance(s, ast.Assign) and isinstance(s.targets[0], ast.Name)
+                   and ((isinstance(s.value, ast.List) and not s.value.elts) or isinstance(s.value, ast.ListComp))}
     for n, d in cfg.g.nodes(data=True):
         s = d["ast"]
         if s is None or d["kind"] != "stmt":
@@ -347,6 +400,13 @@ def rule_validate(program, ctx, prop=P, rid="C01.validate"):
             if isinstance(first, ast.Subscript) and isinstance(first.slice, ast.Constant) and first.slice.value == 1 and re.search(r"len\(\w+\) == 2", gt) and "startswith('#')" in gt:
                 names_ok = True
                 ctx.ok(rid, c, "tag name = k[1] of a two-character '#x' key")
+    for lc in walk_no_nested(mv):
+        if isinstance(lc, ast.ListComp) and isinstance(lc.elt, ast.Tuple) and len(lc.generators) == 1 and "items()" in ast.unparse(lc.generators[0].iter):
+            first = lc.elt.elts[0]
+            gt = " and ".join(ast.unparse(i) for i in lc.generators[0].ifs)
+            if isinstance(first, ast.Subscript) and isinstance(first.slice, ast.Constant) and first.slice.value == 1 and re.search(r"len\(\w+\) == 2", gt) and "startswith('#')" in gt:
+                names_ok = True
+                ctx.ok(rid, lc, "tag name = k[1] of a two-character '#x' key (comprehension form)")
     if not names_ok:
         ctx.bad(finding_func(prop, rid, mv, "tag names are no longer taken as k[1] of keys with len(k) == 2 and prefix '#'", text="def model_validate(...) :: tag names"))
     ck = program.func("nostr_relay.storage.base:NostrQuery.check_tags")
@@ -548,20 +608,36 @@ def rule_cmp(program, ctx, prop=P, rid="C01.cmp"):
                     else:
                         ctx.bad(finding_at(prop, rid, n, f"SQL: `{f}` is compiled to `created_at {m.group(1) if m else '?'}`: the bound points the wrong way", text=f))
     cm = program.func("nostr_relay.storage.kv:compile_match_from_query")
+    from ..lib import expand_aliases
+
+    def template_text(stmts):
+        """constant text of every clause template (f-string, %-format, .format) in the statements"""
+        out = []
+        for s_ in stmts:
+            for j in ast.walk(s_):
+                if isinstance(j, ast.JoinedStr):
+                    out.append("".join(str(p_.value) for p_ in j.values if isinstance(p_, ast.Constant)))
+                elif isinstance(j, ast.BinOp) and isinstance(j.op, ast.Mod) and isinstance(j.left, ast.Constant) and isinstance(j.left.value, str):
+                    out.append(j.left.value)
+                elif isinstance(j, ast.Call) and isinstance(j.func, ast.Attribute) and j.func.attr == "format" and isinstance(j.func.value, ast.Constant):
+                    out.append(str(j.func.value.value))
+        return " ".join(out)
+
     for n in ast.walk(cm):
         if isinstance(n, ast.If):
             t = ast.unparse(n.test)
             for f in ("since", "until"):
                 if f"key == '{f}'" in t:
-                    js = [j for s in n.body for j in ast.walk(s) if isinstance(j, ast.JoinedStr)]
-                    txt = " ".join(str(p.value) for j in js for p in j.values if isinstance(p, ast.Constant))
+                    txt = template_text(n.body)
                     m = re.search(r"(>=|<=|<|>|==)", txt)
-                    col = any("FIELDS_TO_COLUMNS['created_at']" in ast.unparse(s) for s in n.body)
+                    col = any("FIELDS_TO_COLUMNS['created_at']" in ast.unparse(expand_aliases(cm, s_)) for s_ in n.body)
                     if m and m.group(1) in OPS[f] and col:
                         ctx.ok(rid, n, f"LMDB residual: {f} -> created_at {m.group(1)}")
                     else:
                         ctx.bad(finding_at(prop, rid, n, f"LMDB residual: `{f}` is compiled to `{m.group(1) if m else '?'}` on {'created_at' if col else 'another column'}", text=f))
-    ce = program.func("nostr_relay.storage.base:BaseSubscription.check_event")
+    from ..lib import live_matcher
+
+    ce = live_matcher(program)[0]
     table = {ast.GtE: ">=", ast.Gt: ">", ast.LtE: "<=", ast.Lt: "<"}
     mirror = {">=": "<=", ">": "<", "<=": ">=", "<": ">"}
     seen = set()
